@@ -35,7 +35,7 @@ theorem resolve_noPort_findSvc {w : World} {ns svc port : String} {s : Service}
   | none => simp [hf] at h
   | some s0 =>
     simp [hf] at h
-    cases hfp : findServicePort s0 (ingPort port) with
+    cases hfp : portOf s0 port with
     | none => simp [hfp] at h; rw [h]
     | some _ => simp [hfp] at h
 
@@ -46,7 +46,7 @@ theorem resolve_ok_findSvc {w : World} {ns svc port : String} {s : Service} {tg 
   | none => simp [hf] at h
   | some s0 =>
     simp [hf] at h
-    cases hfp : findServicePort s0 (ingPort port) with
+    cases hfp : portOf s0 port with
     | none => simp [hfp] at h
     | some _ => simp [hfp] at h; rw [h.1]
 
@@ -57,7 +57,7 @@ theorem resolve_noSvc_findSvc {w : World} {ns svc port : String}
   | none => rfl
   | some s0 =>
     simp [hf] at h
-    cases hfp : findServicePort s0 (ingPort port) with
+    cases hfp : portOf s0 port with
     | none => simp [hfp] at h
     | some _ => simp [hfp] at h
 
@@ -148,6 +148,23 @@ theorem outcome_reads_fresh (rev : Rev) (w : World) (hdr : w.drain = false) (cur
   | defBack svc port =>
     unfold outcome at h
     simp only [] at h
+    by_cases hps : ing.pseudo = true
+    · simp only [hps, if_true] at h
+      have hfr := addBackend_reads_fresh w hdr ⟨ing, host, .defBack svc port⟩ svc port
+      rcases hab : addBackend w ⟨ing, host, .defBack svc port⟩ svc port with ⟨edges, reads, oid⟩
+      rw [hab] at h hfr
+      cases oid with
+      | none =>
+        simp only [] at h
+        have := List.append_cancel_left h
+        simp at this; subst this
+        exact hfr
+      | some id =>
+        simp only [] at h
+        have := List.append_cancel_left h
+        simp at this; subst this
+        exact hfr
+    simp only [hps, if_false] at h
     by_cases hp : (cur.getD { name := host }).hasPath "/" "begin" = true
     · simp only [hp, if_true] at h
       have := List.append_cancel_left h
